@@ -61,6 +61,19 @@ def activation_tests(F, body):
                             if any(flags.is_flag_place(cb, p) for p in pls):
                                 hit = True
         if hit:
+            # the bool must be the flag and nothing but the flag: a test of `flag && <something else>` skips activated rights
+            # when the something else is false — it is not an activation test, and its false edge is not a permitted bypass
+            pure = not any(d.kind == 'assign' and d.rv['k'] == 'bin' for d in sl.rvs)
+            for c in sl.calls:
+                cal = lib.local_callee(F, c)
+                if cal is not None and cal.kind != 'Closure' and not c.is_(r'::(front|get_latest|get|iter)$'):
+                    pure = False
+                for (_i, cb, _rv) in lib.closure_args(F, c):
+                    if any(cb.term(bb)['k'] == 'switch' for bb in cb.live_blocks()) or \
+                            any(lib.local_callee(F, cc) is not None for cc in cb.calls()):
+                        pure = False
+            if not pure:
+                continue
             te, fe = bool_edges(body, b)
             if te is not None:
                 out.append((b, te))
@@ -120,6 +133,12 @@ def wiring(ctx):
     prop_ok = any(e.src_call is fd for e in lib.error_exits(body))
     ctx.check(prop_ok, body.key, 'full_decaps-error-propagated',
               'the error of full_decaps (no right could be recovered) is not propagated', '`?` on full_decaps', fd.where())
+    # recaps adds no failure of its own: it fails only when full_decaps or encaps fail
+    own = [e for e in lib.error_exits(body) if e.kind == 'explicit']
+    ctx.check(not own, body.key, 'no failure of its own',
+              'recaps raises an error of its own (%s, line %s): an encapsulation the master key can partially open is no longer '
+              're-encapsulated for the rights that were recovered' % (own[0].desc if own else '', own[0].ln if own else ''),
+              'errors only propagated from full_decaps / encaps', body.where())
     # encaps(rng, mpk, &rights): rights is exactly component .1 of full_decaps's Ok payload
     rr = copy_chain_sources(body, en.args[2], through_calls=(r'^std::ops::Try::branch$',) + IDENTITY_CALLS)
     okr = bool(rr) and all(r[0] == 'call' and r[1] is fd and '1' in [str(x) for x in r[2][-1:]] for r in rr)
